@@ -47,11 +47,12 @@ CLAIMS = {
         technique='contract-based deductive verification (Verus) of mechanically extracted Rust functions + inductive ghost lemma over histories',
         ref='DESIGN 6 C14'),
     'C04': dict(
-        text='Deductive proof (Verus) of the real text of eval_dependencies: it TERMINATES (decreases on the retry loop: no hang on cyclic or unsatisfiable dependencies), returns Ok only when every dependent variable '
-             'received a value (no partial answer), leaves non-dependent given values untouched, and - when dependent ids are not supplied by the caller - every dependent variable equals its defining function evaluated at the final state, '
-             'through chains, for EVERY iteration order of the HashMap (the order is universally quantified). Carried into Instance::evaluate in C05.',
-        note=A1 + 'Function::substitute / Instance::substitute (function-composition half of the property) are NOT covered: they rest on the BTreeMap-merge operator code (see C02 in DESIGN); the property is therefore only partially decided.',
-        technique='contract-based deductive verification (Verus) of mechanically extracted Rust functions; termination by decreases; value-locality lemmas by induction',
+        text='Deductive proof (Verus) of the real text of (a) Function::substitute: for an empty map the function itself, otherwise exactly the expression sum_t (c_t * prod_j factor_tj) built with the Function operators, each factor being the replacement of the j-th id of term t or a function whose value is that variable; '
+             'ghost lemma lemma_substitute_value: its value at every assignment m equals the ORIGINAL evaluated at the state in which each replaced variable holds the value of its replacement at m (replacements may mention replaced variables: simultaneous substitution), minus an explicit accumulated epsilon-drop remainder of the operator calls; '
+             '(b) Instance::substitute: objective, every active and every removed constraint and every existing dependency function are replaced by their substitution, every replacement is recorded in decision_variable_dependency, everything else framed; '
+             '(c) eval_dependencies: it TERMINATES (decreases on the retry loop: no hang on cyclic or unsatisfiable dependencies), returns Ok only when every dependent variable received a value (no partial answer), leaves non-dependent given values untouched, and every dependent variable equals its defining function evaluated at the final state, through chains, for EVERY iteration order of the HashMap. Carried into Instance::evaluate in C05.',
+        note=A1 + 'ASSUMED callee contracts of Function::substitute: Function+Function, Function*Function, Function*Linear (pure, value up to an explicit remainder: C02), the term iterator of &Function (axioms ax_fn_terms), Function::zero, From<f64>, Linear::single_term; of Instance::substitute: the HashMap::iter_mut loop over the dependency functions and HashMap::extend as helpers. Precondition (observation): replacement functions have their oneof set (the operators panic otherwise). The contract of Function::substitute pins the operator order of the code: a refactoring that reorders operator applications is outside the sidecar (lost anchor -> bounded stand-in).',
+        technique='contract-based deductive verification (Verus) of mechanically extracted Rust functions; ghost trace (sequences of factor functions) as existential witness; termination by decreases; value lemmas by induction',
         ref='DESIGN 6 C04'),
     'C03': dict(
         text='Deductive proof (Verus) of the real text of Linear::partial_evaluate (swap_remove loop: value preserved at every extension of the fixed part, no fixed id left, returned set = fixed ids that occurred, termination), '
